@@ -1,5 +1,6 @@
 import MpVerif.C09.Lemmas
 import MpVerif.C09.PipelineLemmas
+import MpVerif.C09.Skeleton
 import MpVerif.Gen.C09Driver
 /-!
 # C09 — a driver run always ends in a well-formed result or a diagnosed failure
@@ -422,10 +423,15 @@ theorem C09_outcome_partial_end (sc : Scenario) (e : Ending) (hreg : Regular sc 
   | finished a w =>
     simp only [Regular] at hreg
     rw [conclude_finished]
-    cases ho : sc.out.writable
-    · simp [GoodEnd, Ending.cause, hreg, ho, cannotWrite]
-    · cases hd : sc.answer.haveDual <;> cases hp : sc.answer.havePrimal <;>
-        simp [GoodEnd, Ending.cause, hreg, ho, codeOK, okFile, hd, hp]
+    cases hw : wantsFile a w
+    · -- default stand-alone run: the result is shown on stdout
+      have hs : suppressMsg w = false := by rcases hreg with h | h; · simp [hw] at h
+                                            · exact h
+      cases ho : sc.out.writable <;> simp [GoodEnd, Ending.cause, hs]
+    · cases ho : sc.out.writable
+      · simp [GoodEnd, Ending.cause, ho, cannotWrite, hw]
+      · cases hd : sc.answer.haveDual <;> cases hp : sc.answer.havePrimal <;>
+          simp [GoodEnd, Ending.cause, ho, codeOK, okFile, hd, hp]
   | raised a w st r =>
     obtain ⟨hnf, hopt, hpop, hwant, hctor⟩ := hreg
     rw [conclude_raised sc a w st r hnf]
@@ -483,7 +489,7 @@ theorem C09_success (sc : Scenario)
                     nprimals := if sc.answer.havePrimal then sc.dims.nvars else 0,
                     complete := true } false := by
   simp [run, ending, faultBefore, hfault, parseFlags_passing _ _ hflags, hstub, hampl,
-    parseOpts_clean _ _ hopts, hobj, hexp, conclude, writeOrRetry, handleSolution, wantsFile, OutPath.writable, hopen, hflush]
+    parseOpts_clean _ _ hopts, hobj, hexp, conclude, writeOrRetry, handleSolution, handleSolutionW, writerChecksClose, wantsFile, OutPath.writable, hopen, hflush]
 
 /-- An offending option token (anywhere in an otherwise clean prefix) ends every run that got as
 far as the header in the option window — with the `wantsol` stored so far. -/
@@ -607,6 +613,41 @@ theorem C09_gen_structure :
     Stage.header.handlerAvailable = false ∧ Stage.populate.dimsKnown = false ∧ Stage.body.dimsKnown = true := by
   decide
 
+/-- **The stage sequence, read off the function bodies** (round 6; a *tripwire with structure*, not a proof about
+C++).  The generated skeletons list every call / construction / condition / throw / return of `RunBackendApp`,
+`BackendApp::Run`, `Init`, `RunFromNLFile`, `ReadNL`, `ReadNLModel`, `ReadNLFile`, `OnHeader` and the two
+after-header lambdas, unfiltered.  Reading each token with the hand-written table `itemOf` and inlining the
+translated bodies gives exactly `pipeline`, and no token is unknown.  A **new call** in any of these bodies, a
+changed branch condition, a new `throw`, or a reordering that moves a step fails this theorem (the translator
+has no list of names it looks for).  The meaning given to each known token, the data flow of the lambdas and the
+resolution of virtual calls are by hand. -/
+theorem C09_gen_pipeline :
+    expand Gen.C09.skeletonTable 400 "skRunBackendApp" = some pipeline ∧
+    firstUnknown Gen.C09.skeletonTable = none := by decide
+
+/-- The writer of the current tree ends with `file.close()` on the `fmt::BufferedFile` the data went to
+(generated from `WriteSolFile`'s last statement). -/
+theorem C09_gen_writer_closes_file : writerChecksClose = Gen.C09.solWriterClosesFile := by decide
+
+/-- **Completeness is a consequence of the writer, not a literal.**  `complete` of a written file is computed by
+`handleSolutionW`: it is `out.canFlush`.  A `.sol` outcome with an incomplete file is *representable* — it is
+exactly what a writer that does not check the stream produces on a path that cannot be flushed — and it is
+excluded for every path **iff** the writer checks. -/
+theorem C09_writer_complete_iff_checked (checks : Bool) :
+    (∀ a w out f g shown, handleSolutionW checks a w out f = some (.sol g shown) → g.complete = true) ↔ checks = true := by
+  constructor
+  · intro h
+    cases checks with
+    | true => rfl
+    | false =>
+      have := h true 0 ⟨true, false⟩ ⟨0, 0, 0, 0, 0, true⟩ _ _ rfl
+      simp at this
+  · intro hc a w out f g shown h
+    subst hc
+    unfold handleSolutionW at h
+    cases hw : wantsFile a w <;> cases hco : out.canOpen <;> cases hcf : out.canFlush <;> simp [hw, hco, hcf] at h
+    rw [← h.1]
+
 /-! ## Round 5: the driver as a pipeline — the ending is computed, not given
 
 `runP sc bs` (`Pipeline.lean`) folds the driver's real stage sequence over a state (inside `Run`? handler
@@ -616,24 +657,47 @@ completes or raises.  The theorems below hold for **every** scenario and **every
 /-- **The table is the fold.**  What the pipeline leaves behind is what the decision table says for the first
 stage, in execution order, at which the environment raises — so every theorem about `run`/`conclude` in this
 file is a theorem about the pipeline, for all behaviour lists. -/
-theorem C09_pipeline_is_table (sc : Scenario) (bs : Behaviours) : runP sc bs = run (sc.withFaults bs) :=
-  runP_eq_run sc bs
+theorem C09_pipeline_is_table (sc : Scenario) (bs : Behaviours) (hex : bs.exceptionsOnly = true) :
+    runP sc bs = run (sc.withFaults bs) :=
+  runP_eq_run sc bs hex
 
 /-- What the environment would do at stages after the first raise (or at stages never reached) is irrelevant. -/
-theorem C09_pipeline_first_raise_decides (sc : Scenario) (bs bs' : Behaviours) (h : firstFault bs = firstFault bs') :
+theorem C09_pipeline_first_raise_decides (sc : Scenario) (bs bs' : Behaviours) (h : firstBeh bs = firstBeh bs') :
     runP sc bs = runP sc bs' := by
   rw [runP_first sc bs, runP_first sc bs', h]
 
 /-- **The property on the pipeline (partial).** -/
-theorem C09_pipeline_outcome_partial (sc : Scenario) (bs : Behaviours)
+theorem C09_pipeline_outcome_partial (sc : Scenario) (bs : Behaviours) (hex : bs.exceptionsOnly = true)
     (hreg : Regular (sc.withFaults bs) (ending (sc.withFaults bs))) :
     Good (sc.withFaults bs) (runP sc bs) := by
-  rw [C09_pipeline_is_table]; exact C09_outcome_partial _ hreg
+  rw [C09_pipeline_is_table _ _ hex]; exact C09_outcome_partial _ hreg
+
+/-- **Abort / hang are representable, and where they lead** (round 6).  If the first thing the environment does
+is to kill the process (SIGSEGV, sanitizer abort, OOM kill) or not to return at stage `s`, the run ends in
+`crash` / `hang` exactly when that stage is reached — the same condition under which a foreign exception at `s`
+would terminate the process — and otherwise it ends as if the environment had done nothing.  No theorem of this
+file excludes these behaviours: whether the real stages abort or hang on a given NL file is **observed**
+(sanitizer build, timeout), it is a hypothesis (`exceptionsOnly`) wherever the property is stated. -/
+theorem C09_pipeline_abort_hang (sc : Scenario) (bs : Behaviours) (s : Stage) (b : Beh)
+    (h : firstBeh bs = some (s, b)) :
+    (b = .aborts → (runP sc bs = .crash ∨ runP sc bs = runP sc [])) ∧
+    (b = .hangs → (runP sc bs = .hang ∨ runP sc bs = runP sc [])) ∧
+    (b = .aborts → runP sc bs = runP sc [(s, .raises .foreign)]) := by
+  rw [runP_first sc bs, h]
+  simp only [Option.toList]
+  rcases runP_abort_or_unreached sc s with ⟨h1, h2⟩ | ⟨h1, h2⟩
+  · exact ⟨fun hb => by subst hb; exact Or.inl h1, fun hb => by subst hb; exact Or.inl h2,
+           fun hb => by subst hb; exact runP_abort_as_foreign sc s⟩
+  · exact ⟨fun hb => by subst hb; exact Or.inr h1, fun hb => by subst hb; exact Or.inr h2,
+           fun hb => by subst hb; exact runP_abort_as_foreign sc s⟩
 
 /-- **Completeness, as an invariant of the fold** — for *any* sequence of steps (not only the driver's), any
 state and any behaviours: whenever the fold ends with a `.sol` and exit status 0, the file is complete and the
-path was writable.  (Induction over the step list; each step can only produce a `.sol` through
-`HandleSolution`.) -/
+path was writable.  `SolFile.complete` is *computed* by the writer model (`handleSolution`: what reaches the file
+is complete iff the path can be flushed); the theorem holds because the writer ends with `file.close()`, which
+throws on a failed write (`writerChecksClose`, tied to the source by `C09_gen_writer_closes_file`) — with
+`writerChecksClose = false` (the code before 87b3b50) the model leaves a truncated file with exit status 0
+(`C09_history_writeerr`). -/
 theorem C09_fold_sol_complete (sc : Scenario) (bs : Behaviours) (ps : List Step) (st : PState) (f : SolFile) (e : Bool)
     (h : foldSteps sc bs ps st = .sol f e) : f.complete = true ∧ sc.out.writable = true := by
   induction ps generalizing st with
@@ -644,11 +708,11 @@ theorem C09_fold_sol_complete (sc : Scenario) (bs : Behaviours) (ps : List Step)
     | done o => rw [hs] at h; simp only at h; subst h; exact step_done_sol sc bs p st f e hs
     | next st' => rw [hs] at h; exact ih st' h
 
-/-- **Crash only through a foreign exception, as an invariant of the fold** — for any step sequence and state:
-if the fold ends in `std::terminate`, the environment raises something that is not a `std::exception` at some
-stage. -/
-theorem C09_fold_crash_needs_foreign (sc : Scenario) (bs : Behaviours) (ps : List Step) (st : PState)
-    (h : foldSteps sc bs ps st = .crash) : ∃ s, look bs s = some .foreign := by
+/-- **The driver's own logic never crashes**: for any step sequence and state, if the fold ends in `crash`, some
+abstract stage either kills the process or raises something that is not a `std::exception` (no catch clause).
+(This is a statement about the catch ladders; that the *stages* do not abort is observed only.) -/
+theorem C09_fold_crash_needs_abort_or_foreign (sc : Scenario) (bs : Behaviours) (ps : List Step) (st : PState)
+    (h : foldSteps sc bs ps st = .crash) : ∃ s, look bs s = some .aborts ∨ look bs s = some (.raises .foreign) := by
   have onR : ∀ st r, onRaise sc st r = .crash → r = .foreign := fun st r hc => onRaise_crash sc st r hc
   induction ps generalizing st with
   | nil => simp [foldSteps] at h
@@ -663,13 +727,17 @@ theorem C09_fold_crash_needs_foreign (sc : Scenario) (bs : Behaviours) (ps : Lis
         simp only [step] at hs
         cases hl : look bs s with
         | none => rw [hl] at hs; simp at hs
-        | some r =>
+        | some b =>
           rw [hl] at hs
-          simp only at hs
-          split at hs
-          · simp at hs
-          · simp only [Ctl.done.injEq] at hs
-            exact ⟨s, by rw [hl, onR _ _ hs]⟩
+          cases b with
+          | aborts => exact ⟨s, Or.inl hl⟩
+          | hangs => simp at hs
+          | raises r =>
+            simp only at hs
+            split at hs
+            · simp at hs
+            · simp only [Ctl.done.injEq] at hs
+              exact ⟨s, Or.inr (by rw [hl, onR _ _ hs])⟩
       | flags =>
         simp only [step] at hs
         split at hs
@@ -697,6 +765,8 @@ theorem C09_fold_crash_needs_foreign (sc : Scenario) (bs : Behaviours) (ps : Lis
       | write =>
         simp only [step, Ctl.done.injEq] at hs
         exact absurd hs (writeOrRetry_not_crash _ _ _ _ _ _)
+      | enterRun => simp [step] at hs
+      | mkHandler => simp [step] at hs
 
 /-- **Dimensions, exactly and without hypothesis** (audit: `C09_dims_partial` excludes the interesting endings).
 Whatever ends the run, the count lines of a written `.sol` are what the problem builder holds *at that point*:
@@ -839,6 +909,13 @@ theorem C09_fixed_writeerr :
     run { scBase with out := ⟨true, false⟩ } = .stderrExit 1 ∧
     Good { scBase with out := ⟨true, false⟩ } (run { scBase with out := ⟨true, false⟩ }) := by decide
 
+/-- **History (87b3b50; was `C09_counterexample_writeerr`)**: without the final `file.close()` the writer
+returned normally on `/dev/full`: a truncated `.sol` (`complete = false`) and — the run going on to `return 0` —
+exit status 0, which `GoodEnd` rejects. -/
+theorem C09_history_writeerr :
+    handleSolutionW false true 0 ⟨true, false⟩ ⟨0, 1, 1, 2, 2, true⟩ = some (.sol ⟨0, 1, 1, 2, 2, false⟩ false) ∧
+    ¬ Good scBase (.sol ⟨0, 1, 1, 2, 2, false⟩ false) := by decide
+
 /-- `recsolver stub foo=1` (no `-AMPL`): the error is printed on stdout, exit 0;
 with `wantsol=8` before it, nothing is printed at all. -/
 theorem C09_counterexample_standalone :
@@ -964,14 +1041,21 @@ example := C09_optfile_unreadable_outcome { scBase with opts := [.tok .ok, .optf
   [.tok .ok] [.tok .bad] [.wantsol 8] (by decide) (by decide) (by decide) (by decide) (by decide) (by decide) (by decide) (by decide)
 example := C09_exportonly_run { scBase with justExport := true, opts := [.tok .ok] } (by decide) (by decide) (by decide) (by decide) (by decide) (by decide)
 -- the pipeline: several stages would raise, options contain an unreadable file after the bad token
-example : runP scMessy [(.solve, .foreign), (.convert, .infeas), (.body, .readError), (.convert, .plain)] =
-    .sol ⟨500, 7, 0, 9, 0, true⟩ true := by decide
-example : firstFault [(.solve, .foreign), (.convert, .infeas), (.body, .readError), (.convert, .plain)] = some (.body, .readError) := by decide
-example := C09_pipeline_outcome_partial scMessy [(.solve, .foreign), (.convert, .infeas), (.body, .readError)] (by decide)
-example := C09_pipeline_first_raise_decides scMessy [(.report, .stdExn), (.names, .readError)] [(.names, .readError), (.solve, .foreign)] (by decide)
-example := C09_fold_sol_complete scMessy [(.body, .readError)] pipeline PState.init ⟨500, 7, 0, 9, 0, true⟩ true (by decide)
-example : ∃ s, look [(Stage.names, Raise.foreign), (.report, .plain)] s = some .foreign :=
-  C09_fold_crash_needs_foreign scBase _ pipeline PState.init (by decide)
+def bsMessy : Behaviours :=
+  [(.solve, .aborts), (.convert, .raises .infeas), (.body, .raises .readError), (.convert, .raises .plain), (.report, .hangs)]
+example : runP scMessy bsMessy = .sol ⟨500, 7, 0, 9, 0, true⟩ true := by decide
+example : firstBeh bsMessy = some (.body, .raises .readError) := by decide
+example := C09_pipeline_outcome_partial scMessy [(.solve, .raises .foreign), (.convert, .raises .infeas), (.body, .raises .readError)] (by decide) (by decide)
+example := C09_pipeline_first_raise_decides scMessy [(.report, .raises .stdExn), (.names, .raises .readError)]
+  [(.names, .raises .readError), (.solve, .aborts)] (by decide)
+example := C09_fold_sol_complete scMessy bsMessy pipeline PState.init ⟨500, 7, 0, 9, 0, true⟩ true (by decide)
+example : ∃ s, look [(Stage.names, Beh.raises .foreign), (.report, .raises .plain)] s = some .aborts ∨
+    look [(Stage.names, Beh.raises .foreign), (.report, .raises .plain)] s = some (.raises .foreign) :=
+  C09_fold_crash_needs_abort_or_foreign scBase _ pipeline PState.init (by decide)
+-- abort / hang: reached (the run dies / hangs) and not reached (a bad option ends the run before)
+example : runP scBase [(.convert, .aborts)] = .crash ∧ runP scBase [(.convert, .hangs)] = .hang := by decide
+example : runP { scBase with opts := [.tok .bad] } [(.convert, .aborts)] = runP { scBase with opts := [.tok .bad] } [] := by decide
+example := (C09_pipeline_abort_hang scBase [(.solve, .raises .plain), (.convert, .hangs)] .convert .hangs (by decide)).2.1 rfl
 example := C09_dims_exact { scBase with dims := ⟨7, 9⟩ } (.raised true 1 .options .plain) ⟨500, 0, 0, 0, 0, true⟩ false (by decide)
 -- parsing loops
 example : (parseOpts [.ok, .wantsol 3, .ok] 0).2 = none := (C09_parseOpts_ok_iff _ _).2 (by decide)
